@@ -283,6 +283,15 @@ def git_state():
     return {"head": head, "diff_sha1": hashlib.sha1(diff.encode()).hexdigest()[:12] if diff else "clean"}
 
 
+FATAL_SIGNALS = {-11: "SIGSEGV", -6: "SIGABRT", -7: "SIGBUS", -4: "SIGILL"}
+
+
+def _py_frames(tail: str) -> str:
+    """The innermost Python frames of a faulthandler dump (where in the workload the fault happened)."""
+    fr = [ln.strip() for ln in tail.splitlines() if ln.strip().startswith("File ")]
+    return " <- ".join(fr[:4])[:400] if fr else "no Python traceback captured"
+
+
 def run_shards(pid: str, specs: list[dict], hard_timeout_s: float, env_extra=None):
     """Run every shard spec in its own interpreter (fresh JIT compile of the current tree), <= NPROC at a time."""
     work = Path(tempfile.mkdtemp(prefix=f"verif-{pid}-"))
@@ -335,6 +344,14 @@ def run_shards(pid: str, specs: list[dict], hard_timeout_s: float, env_extra=Non
                 if rc != 0 or not op.exists():
                     tail = ep.read_text()[-1500:] if ep.exists() else ""
                     problems.append(f"shard {i} ({spec.get('kind')}) died rc={rc}: {tail}")
+                    if rc in FATAL_SIGNALS:
+                        # the harness is pure Python: a memory fault can only come from the compiled code under test
+                        # (or glibc aborting on a heap it found corrupted) - an observed memory-safety violation
+                        Rf = Recorder()
+                        first = next((ln for ln in ep.read_text().splitlines() if ln.strip()), "") if ep.exists() else ""
+                        Rf.violation(f"{pid}:fatal-signal", f"shard {spec.get('kind')} was killed by {FATAL_SIGNALS[rc]} while running the code under test ({first[:120]}); faulthandler: {_py_frames(ep.read_text() if ep.exists() else '')}",
+                                     {"shard_spec": spec, "signal": FATAL_SIGNALS[rc]})
+                        results[i] = Rf.dump()
                 else:
                     results[i] = json.loads(op.read_text())
             running = still
